@@ -14,7 +14,7 @@ print('|------|----------|-------------------|-------------------|')
 for d in sorted(glob.glob(os.path.join(VERIF, 'seeded', 'C*-*'))):
     m = json.load(open(os.path.join(d, 'meta.json')))
     ce = m.get('current_evaluation', {})
-    print('| %s | %s | %s | %s (%s) |' % (m['seed'], m['property'], m['needs_to_manifest'],
+    print('| %s | %s | %s | %s (%s) |' % (m['seed'], m['property'], m.get('needs_to_manifest', 'see notes_from_author.md in the seed directory'),
                                          ' '.join(ce.get('detected_by', [])), ' '.join(ce.get('rules', []))))
 print()
 print('| property | breaking edits owned | benign edits listed |')
